@@ -33,6 +33,30 @@ CLAIMS = {
          "tag swaps, PEM framing faults, deep nesting) run in child processes under ulimit -v with a watchdog, outcome class compared with the model.",
          "Coq proof of totality over all byte strings + hostile-input correspondence in sandboxed children", "DESIGN.md §3 C07",
          "Go's encoding/asn1, bufio and base64 are an oracle of the model; that they themselves do not panic or over-allocate on the bounded slices they are given is exercised, not proved."),
+ "C01": ("Coq theorems composing four layers, each for all inputs of its layer: C01_reader (from C06_main: every entry of a "
+         "profile document reaches the consumer for every list size/position/schedule), C01_store (an inserted pair is never answered "
+         "'not revoked', no collision hypothesis), C01_repo (in every reachable state of every history a list in force that lists "
+         "issuer+serial makes the handshake fail) and C01_compose (every CRL-enabling mode rejects whatever OCSP said); plus real "
+         "end-to-end handshakes through VerifyClientCertificate over sources x encodings x list sizes x positions x serial widths x "
+         "storage x mode x OCSP answer.",
+         "Coq proofs layered reader/store/repository/verifier + end-to-end correspondence", "DESIGN.md §3 C01", ""),
+ "C08": ("Coq theorems over the repository model: C08_failed_refresh_keeps (a refresh that obtains nothing acceptable leaves the whole "
+         "state unchanged, for every failure kind incl. storage faults), C08_all_or_nothing, C08_later_success, C08_old_then_new; "
+         "histories with every failure kind and injected staging/consumer faults on both real backends compared with the model.",
+         "Coq invariant proofs over the repository state machine + fault-injected history correspondence", "DESIGN.md §3 C08",
+         "the interleaving statement is proved on the lock-granular model (lookups and the commit are atomic sections); that sync.RWMutex and the LevelDB rename+reopen provide that atomicity is exercised, not proved."),
+ "C10": ("Coq theorems C10_strict / C10_strict_denies_unusable / C10_lenient over every history of the repository model "
+         "(invariant: loaded <-> a whole accepted list is in force); histories over CDP sets (http, ldap-only, mixed, several URLs) on "
+         "all 24 configurations compared with the model and with the property's reference semantics.",
+         "Coq invariant proofs over all histories + history correspondence", "DESIGN.md §3 C10", ""),
+ "C11": ("Coq theorems C11_precise (a 'revoked' verdict exhibits an accepted list in force listing issuer+serial, over every history), "
+         "C11_rejected_leaves_no_trace, C11_superseded, C11_store/C11_key (store refinement, injective keys); histories with "
+         "rejected-then-accepted loads, two issuers with overlapping serials and near-miss probes compared with the model.",
+         "Coq invariant proofs + store refinement + history correspondence", "DESIGN.md §3 C11", ""),
+ "C16": ("Coq theorems C16_uniform / C16_meaning / C16_verify_never_unverified / C16_lenient_refresh / C16_default over a policy that "
+         "srcfacts regenerates from loadCRL and updateCrlEntry on every run; the 3x3x4x2 matrix (x fetch mode x strict) run on the real "
+         "validator plus the provision-time crl_urls path.",
+         "Coq proof over source-generated policy + exhaustive matrix correspondence", "DESIGN.md §3 C16", ""),
  "C03": ("Coq theorems C03_table/C03_enabled/C03_iff/C03_effects over a model whose mode table, enable predicates and "
          "VerifyClientCertificate stage list are regenerated from the Go source on every run; plus an exhaustive 1536-cell "
          "table of real handshakes evaluated against the model (vm_compute) and against the property's own wording.",
